@@ -312,9 +312,9 @@ def int_sweep(ctx, ty, extra=()):
     for v in extra:
         zs += [v, v - 1, v + 1, ~v, -v, v | 1 << (bits - 1), hi & ~v]
     rng = ctx.rng
-    for _ in range(ctx.pick(60, 1500)):
+    for _ in range(ctx.pick(60, 1000)):
         zs.append(rng.randrange(lo, hi + 1))
-    for _ in range(ctx.pick(40, 800)):          # sparse and dense bit patterns
+    for _ in range(ctx.pick(40, 500)):          # sparse and dense bit patterns
         a = rng.getrandbits(bits) & rng.getrandbits(bits)
         zs += [a, hi & ~a if lo == 0 else ~a]
     out, seen = [], set()
@@ -729,7 +729,7 @@ def corr_bytes(ctx, reg):
                           "value); each in object and plain-data form; plain-data values must consist of literals only and, "
                           "when they hold no inf/nan, repr() must evaluate back (ast.literal_eval) to an equal value that "
                           "serializes to the same bytes; no model involved; non-trivial = accepted payloads")
-    n_gen, n_fuzz = ctx.pick(14, 300), ctx.pick(24, 500)
+    n_gen, n_fuzz = ctx.pick(14, 150), ctx.pick(24, 300)
     _SWEPT.pop(id(ctx), None)
     counts, dist = {}, {}
     accepted = evals = 0
